@@ -518,8 +518,11 @@ impl<W: 'static, R: SeedableRng + RngCore + 'static, T: 'static> XSequence<W, R,
         // we have two options here, either we copy and entire array and shuffle it up to k (the "pool" method), or we remember which indices we have already picked and re-roll those if we see them(the "pick" method)
         // the pool method is better for large k, but the pick method is better for small k
         let use_pool = {
-            let exp = u64::BITS - (3 * k).leading_zeros();
-            let size_of_set = 6 + 4usize.pow(exp / 2);
+            let exp = u64::BITS - 3usize.saturating_mul(k).leading_zeros();
+            let size_of_set = 4usize
+                .checked_pow(exp / 2)
+                .and_then(|p| p.checked_add(6))
+                .unwrap_or(usize::MAX);
             len <= size_of_set
         };
 
